@@ -241,6 +241,23 @@ def fs_dump(fn):
     return steps
 
 
+def fs_default_pattern(init, namefn):
+    """default of FileSystemBytecodeCache(pattern=…) split at its single %s; entry file name = pattern % (bucket.key,)"""
+    args = init.args
+    names = [a.arg for a in args.args]
+    if "pattern" not in names:
+        raise Untranslatable("FileSystemBytecodeCache.__init__ has no pattern parameter")
+    d = args.defaults[names.index("pattern") - (len(names) - len(args.defaults))]
+    if not (isinstance(d, ast.Constant) and isinstance(d.value, str) and d.value.count("%s") == 1 and d.value.count("%") == 1):
+        raise Untranslatable("pattern default is not a string with exactly one %s")
+    if [_u(x) for x in _body(namefn)] != ["return os.path.join(self.directory, self.pattern % (bucket.key,))"]:
+        raise Untranslatable("_get_cache_filename is not join(directory, pattern % (key,))")
+    pre, post = d.value.split("%s")
+    if any(c in pre + post for c in "*?[]"):
+        raise Untranslatable("pattern default contains glob metacharacters")
+    return pre, post
+
+
 def fs_clear_pattern(fn):
     """clear() removes the files matching pattern % '*' in self.directory"""
     src = _u(fn)
@@ -307,6 +324,7 @@ def gen():
     open_caught, uses_with = fs_load(find_func(fs, "load_bytecode"))
     dsteps = fs_dump(find_func(fs, "dump_bytecode"))
     clear_ok = fs_clear_pattern(find_func(fs, "clear"))
+    pat_pre, pat_post = fs_default_pattern(find_func(fs, "__init__"), find_func(fs, "_get_cache_filename"))
     mc = find_class(tree, "MemcachedBytecodeCache")
     mg = mc_guard(find_func(mc, "load_bytecode"), "get")
     ms = mc_guard(find_func(mc, "dump_bytecode"), "set")
@@ -409,6 +427,10 @@ def dumpSteps : List DumpStep := [
 
 -- READ: FileSystemBytecodeCache.clear removes exactly the directory entries matching `pattern % "*"`
 def clearUsesPattern : Bool := {lbool(clear_ok)}
+
+-- READ: the default `pattern` of FileSystemBytecodeCache, split at its %s; the entry's file name is pattern % (key,)
+def defaultPatternPre : String := {lstr(pat_pre)}
+def defaultPatternPost : String := {lstr(pat_post)}
 
 structure McGuard where
   func : String
